@@ -43,7 +43,7 @@ class Ctx:
 
     def __init__(self, max_depth=200000, pins=None, twin=False, tier="quick"):
         self.solver = z3.Solver()
-        self.full_timeout = int(__import__("os").environ.get("VERIF_SOLVER_TIMEOUT_MS", "60000"))
+        self.full_timeout = int(__import__("os").environ.get("VERIF_SOLVER_TIMEOUT_MS", "180000"))
         self.quick_timeout = int(__import__("os").environ.get("VERIF_SOLVER_QUICK_MS", "300"))
         self.extra_stack = []         # temporary assumptions of eval_under / extra-model search (not part of pc)
         self._last = self.solver      # the solver object that answered the last check (for model())
